@@ -301,6 +301,7 @@ func (v *AttVerdict) exchange(ex AttExchange) {
 		v.note(m0, "surplus-element")
 	}
 	var prev *AttBlock
+	var receiptsNamed map[uint64]int // block number -> batch element whose receipts name it
 	for k, el := range elems {
 		method := attMethod(ex.Kind, k)
 		if ex.Kind == "logs" && k >= 2 {
@@ -349,7 +350,10 @@ func (v *AttVerdict) exchange(ex AttExchange) {
 			if k < len(ex.Asked) {
 				asked, known = ex.Asked[k], true
 			}
-			v.receiptsElem(method, res, asked, known)
+			if receiptsNamed == nil {
+				receiptsNamed = map[uint64]int{}
+			}
+			v.receiptsElem(method, res, asked, known, k, receiptsNamed)
 		case "logs":
 			switch k {
 			case 0:
@@ -506,7 +510,7 @@ func attLogOf(it map[string]any) (AttLog, bool) {
 	return l, true
 }
 
-func (v *AttVerdict) receiptsElem(method string, res any, asked uint64, askedKnown bool) {
+func (v *AttVerdict) receiptsElem(method string, res any, asked uint64, askedKnown bool, elem int, namedBy map[uint64]int) {
 	arr, ok := res.([]any)
 	if !ok {
 		v.must(method, "undecodable")
@@ -525,6 +529,13 @@ func (v *AttVerdict) receiptsElem(method string, res any, asked uint64, askedKno
 		}
 		if (askedKnown && b.Num != asked) || (firstBlock != nil && b != firstBlock) {
 			v.note(method, "item-names-other-block")
+		}
+		// two elements of one batch that carry the receipts of the same block: one request was answered twice and
+		// another one not at all (a duplicated element) — what comes back is partial data
+		if first, seen := namedBy[b.Num]; seen && first != elem {
+			v.must(method, "duplicate-result")
+		} else if !seen {
+			namedBy[b.Num] = elem
 		}
 		if firstBlock == nil {
 			firstBlock = b
